@@ -152,7 +152,7 @@ theorem end_eof (c : Cfg) (hq : Quiet c) (hrc : c.reconnect = 0) (s : St) (te : 
       s.trace ++ [(s.now, .sockClosed w.idx)] ++ cbTrace c s.calls s.now .onError [.exn .closed] ++
         cbTrace c (cbCalls c s.calls .onError) s.now .onClose [.none, .none] ++ [(s.now, .returned true)] := by
   obtain ⟨kr, sk, wo, wd, wc, pg, hdt, he, evs, arrived⟩ := h
-  simp only [readEvents, handleEv, asRead, arrived, ↓reduceIte, hk, fin, finishRun, finishRunO, closeTransport, sk, wo, handleDisconnect, afterReport,
+  simp only [readEvents, handleEv, asRead, arrived, ↓reduceIte, hk, fin, finishRun, finishRunO, closeTransport, sk, wo, handleDisconnect_running, handleDisconnectBody, kr, afterReport,
     gen_dcErr, gen_dcStops, stopPing, pg, St.emit, Bool.not_false, callback_quiet c hq, hrc, teardown, gen_guard,
     hdt, gen_tdStops, wsClose, dropSock, closeArgs, reduceCtorEq, ne_eq, not_true_eq_false,
     Bool.and_false, Bool.false_eq_true, Bool.not_true]
@@ -180,7 +180,7 @@ theorem end_reset (c : Cfg) (hq : Quiet c) (hrc : c.reconnect = 0) (s : St) (te 
       s.trace ++ cbTrace c s.calls s.now .onError [.exn .transport] ++ [(s.now, .sockClosed w.idx)] ++
         cbTrace c (cbCalls c s.calls .onError) s.now .onClose [.none, .none] ++ [(s.now, .returned true)] := by
   obtain ⟨kr, sk, wo, wd, wc, pg, hdt, he, evs, arrived⟩ := h
-  simp only [readEvents, handleEv, asRead, arrived, ↓reduceIte, hk, fin, finishRun, finishRunO, sk, Option.map_some, handleDisconnect, afterReport,
+  simp only [readEvents, handleEv, asRead, arrived, ↓reduceIte, hk, fin, finishRun, finishRunO, sk, Option.map_some, handleDisconnect_running, handleDisconnectBody, kr, afterReport,
     gen_dcErr, gen_dcStops, stopPing, pg, St.emit, Bool.not_false, callback_quiet c hq, hrc, teardown, gen_guard,
     hdt, gen_tdStops, wsClose, wc, St.writable, wo, Bool.not_true, Bool.and_false, closeTransport, dropSock,
     closeArgs, reduceCtorEq, ne_eq, not_true_eq_false, Bool.false_eq_true]
@@ -203,7 +203,7 @@ theorem end_error (c : Cfg) (hq : Quiet c) (hrc : c.reconnect = 0) (s : St) (te 
   have hm : max s.now (s.now + secs Gen.closeTimeoutDefault) = s.now + secs Gen.closeTimeoutDefault := by omega
   have hxk : x ≠ .ki := by rcases hk with ⟨_, rfl⟩ | ⟨_, rfl⟩ <;> simp
   rcases hk with ⟨hk, rfl⟩ | ⟨hk, rfl⟩ <;>
-  · simp only [readEvents, handleEv, asRead, arrived, ↓reduceIte, hk, fin, finishRun, finishRunO, handleDisconnect, afterReport,
+  · simp only [readEvents, handleEv, asRead, arrived, ↓reduceIte, hk, fin, finishRun, finishRunO, handleDisconnect_running, handleDisconnectBody, kr, afterReport,
       gen_dcErr, gen_dcStops, stopPing, pg, St.emit, Bool.not_false, callback_quiet c hq, hrc, teardown, gen_guard,
       hdt, gen_tdStops, wsClose, sk, wc, St.writable, wo, wd, Bool.not_true, Bool.and_false, Bool.and_self,
       closeWait, hlt, reduceCtorEq, ne_eq, not_true_eq_false, Bool.false_eq_true]
@@ -252,17 +252,17 @@ theorem end_outcome (c : Cfg) (hq : Quiet c) (hrc : c.reconnect = 0) (s : St) (t
     omega
   rcases hterm with hk | hk | hk | hk | ⟨b, hk⟩
   · simp only [readEvents, handleEv, asRead, arrived, ↓reduceIte, hk, fin, finishRunO, closeTransport, sk, wo,
-      handleDisconnect, afterReport, gen_dcErr, gen_dcStops, stopPing, pg, St.emit, Bool.not_false,
+      handleDisconnect_running, handleDisconnectBody, kr, afterReport, gen_dcErr, gen_dcStops, stopPing, pg, St.emit, Bool.not_false,
       callback_quiet c hq, hrc, teardown, gen_guard, hdt, gen_tdStops, wsClose, dropSock, closeArgs, reduceCtorEq,
       ne_eq, not_true_eq_false, Bool.and_false, Bool.false_eq_true, Bool.not_true]
     simp
   · simp only [readEvents, handleEv, asRead, arrived, ↓reduceIte, hk, fin, finishRunO, sk, Option.map_some,
-      handleDisconnect, afterReport, gen_dcErr, gen_dcStops, stopPing, pg, St.emit, Bool.not_false,
+      handleDisconnect_running, handleDisconnectBody, kr, afterReport, gen_dcErr, gen_dcStops, stopPing, pg, St.emit, Bool.not_false,
       callback_quiet c hq, hrc, teardown, gen_guard, hdt, gen_tdStops, wsClose, wc, St.writable, wo, Bool.not_true,
       Bool.and_false, closeTransport, dropSock, closeArgs, reduceCtorEq, ne_eq, not_true_eq_false,
       Bool.false_eq_true]
     simp
-  · simp only [readEvents, handleEv, asRead, arrived, ↓reduceIte, hk, fin, finishRunO, handleDisconnect, afterReport,
+  · simp only [readEvents, handleEv, asRead, arrived, ↓reduceIte, hk, fin, finishRunO, handleDisconnect_running, handleDisconnectBody, kr, afterReport,
       gen_dcErr, gen_dcStops, stopPing, pg, St.emit, Bool.not_false, callback_quiet c hq, hrc, teardown, gen_guard,
       hdt, gen_tdStops, wsClose, sk, wc, St.writable, wo, wd, Bool.not_true, Bool.and_false, Bool.and_self,
       closeWait, hlt, reduceCtorEq, ne_eq, not_true_eq_false, Bool.false_eq_true]
@@ -270,7 +270,7 @@ theorem end_outcome (c : Cfg) (hq : Quiet c) (hrc : c.reconnect = 0) (s : St) (t
     simp only [Bool.not_true, Bool.false_eq_true, ↓reduceIte, closeTransport, St.emit, dropSock, closeArgs,
       callback_quiet c hq]
     simp
-  · simp only [readEvents, handleEv, asRead, arrived, ↓reduceIte, hk, fin, finishRunO, handleDisconnect, afterReport,
+  · simp only [readEvents, handleEv, asRead, arrived, ↓reduceIte, hk, fin, finishRunO, handleDisconnect_running, handleDisconnectBody, kr, afterReport,
       gen_dcErr, gen_dcStops, stopPing, pg, St.emit, Bool.not_false, callback_quiet c hq, hrc, teardown, gen_guard,
       hdt, gen_tdStops, wsClose, sk, wc, St.writable, wo, wd, Bool.not_true, Bool.and_false, Bool.and_self,
       closeWait, hlt, reduceCtorEq, ne_eq, not_true_eq_false, Bool.false_eq_true]
